@@ -30,7 +30,9 @@ TRUSTED = [
     "obligation (interpreter_hashes_slices)" % sys.version_info[:3],
 ]
 ASSUMPTIONS = [
-    "values nested deeper than the interpreter's recursion limit are outside the model",
+    "values nested deeper than the interpreter's stack allows are outside the model: brine recurses with 2-4 frames per "
+    "nesting level, so the bound is a fraction of sys.getrecursionlimit() (measured per shape on every run: evidence key "
+    "nesting_depths_recursion_limit_*); what IS checked there: every depth dump() accepts, load() can decode",
     "lengths >= 2**32 (struct.error) are excluded by an explicit guard in the theorems and not generated",
     "a value containing an int beyond the interpreter's str() digit limit is outside the statement "
     "('integers of any size the interpreter can render as text')",
@@ -78,7 +80,20 @@ class Color(enum.IntEnum):
 
 Point = collections.namedtuple("Point", "x y")
 
-OTHERS = [lambda: [], lambda: {}, lambda: set(), lambda: bytearray(b"ab"), lambda: MyInt(5), lambda: MyStr("x"),
+class BadRepr(object):
+    """refusing it must be a TypeError whatever its repr does"""
+    def __repr__(self):
+        raise RuntimeError("repr refuses")
+
+
+def deep_list(n):
+    v = []
+    for _ in range(n):
+        v = [v]
+    return v
+
+
+OTHERS = [lambda: BadRepr(), lambda: deep_list(5000), lambda: [], lambda: {}, lambda: set(), lambda: bytearray(b"ab"), lambda: MyInt(5), lambda: MyStr("x"),
           lambda: MyBytes(b"x"), lambda: MyTuple((1, 2)), lambda: MyFloat(1.5), lambda: MyFrozenset([1]),
           lambda: Color.RED, lambda: Point(1, 2), lambda: object(), lambda: (lambda: 0), lambda: range(3),
           lambda: memoryview(b"x"), lambda: int, lambda: sys, lambda: [1, (2, 3)], lambda: {"a": 1}]
@@ -383,11 +398,69 @@ def correspondence(ctx):
             c.disagreements.append(dict(op=kind, case=text[:2000], impl=want[:300], model=got[:300]))
         elif len(c.samples) < 12 and c.evaluations % 997 == 3:
             c.samples.append(dict(op=kind, case=text[:200], outcome=want[:200]))
+    depth_symmetry(c)
     c.extra["exhaustive_decode_inputs_up_to_2_bytes"] = n_exh
     if ctx.tier == "thorough" and not c.disagreements:
         exhaustive3(c)
     c.exhaustive = False
     return c
+
+
+def nest(d, f):
+    v = ()
+    for _ in range(d):
+        v = f(v)
+    return v
+
+
+NEST_SHAPES = [("tuple1", lambda x: (x,)), ("tuple5", lambda x: (x, 1, 2, 3, 4)), ("tuple300", lambda x: (x,) + (0,) * 299),
+               ("slice", lambda x: slice(x, None, None)), ("frozenset", lambda x: frozenset([x]))]
+
+
+def depth_symmetry(c):
+    """real code only: decoding needs no more stack than encoding.  For each nesting shape, every depth at which
+    dump() succeeds (called from here) must be decodable by load() (called from the same depth) - up to a 10% margin
+    for constant per-call overheads.  The model has no recursion limit; this is where the ASSUMPTION 'values nested
+    beyond the interpreter's recursion limit are outside' gets its measured meaning."""
+    b = brine()
+    found = {}
+    old_limit = sys.getrecursionlimit()
+    sys.setrecursionlimit(1000)          # the interpreter's default: what a deployed peer has
+    try:
+        for name, f in NEST_SHAPES:
+            deepest_dump, first_load_fail = None, None
+            for d in range(50, 1000, 10):
+                v = nest(d, f)
+                try:
+                    data = b.dump(v)
+                except RecursionError:
+                    break
+                deepest_dump = d
+                try:
+                    back = b.load(data)
+                except RecursionError:
+                    if first_load_fail is None:
+                        first_load_fail = d
+                    continue
+                if d <= 150:                 # the harness's own comparison recurses too: compare shallow ones only
+                    try:
+                        same = typed_equal(back, v)
+                    except RecursionError:
+                        same = True
+                    if not same:
+                        c.disagreements.append(dict(op="depth", case="%s depth %d" % (name, d),
+                                                    impl="load(dump v) differs", model="equal"))
+            found[name] = dict(deepest_dump=deepest_dump, first_undecodable=first_load_fail)
+    finally:
+        sys.setrecursionlimit(old_limit)
+    for name in list(found):
+        deepest_dump, first_load_fail = found[name]["deepest_dump"], found[name]["first_undecodable"]
+        c.evaluations += 1
+        if first_load_fail is not None and deepest_dump and first_load_fail < 0.9 * deepest_dump:
+            c.disagreements.append(dict(op="depth", case="%s: dump() accepts nesting %d but load() cannot decode nesting %d"
+                                        % (name, deepest_dump, first_load_fail),
+                                        impl="RecursionError in load", model="load(dump v) = v"))
+    c.extra["nesting_depths_recursion_limit_1000"] = found
 
 
 def exhaustive3(c):
